@@ -91,6 +91,7 @@ def render(d, svc="Svc"):
         dbg = ", ".join(f"{n}" for n in m.anames)
         fmt = "".join(["|{:?}"] * m.arity)
         L.append(f"            self.0.lock().unwrap().push(format!(\"{m.idx}{fmt}|{{}}\", {dbg + ', ' if dbg else ''}format!(\"{{}}/{{:?}}\", the_context.trace_id(), the_context.trace_context.sampling_decision)));")
+        L.append(f"            crate::support::note_deadline(Arc::as_ptr(&self.0) as usize, {m.idx}, the_context.deadline);")
         val = " + ".join([f"{m.idx * 1000}u32"] + [f"{arg_as_u32(t, n)} * {w}" for n, t, w in zip(m.anames, m.tys, weights(m.arity))])
         if m.ret == "u32": L.append(f"            {val}")
         elif m.ret == "tuple": L.append(f"            ({val}, {m.idx}u32)")
@@ -145,6 +146,10 @@ def render(d, svc="Svc"):
         L.append("            let mut ctx = context::current();")
         L.append(f"            ctx.trace_context.trace_id = tarpc::trace::TraceId::from({5000 + m.idx}u128);")
         L.append(f"            ctx.trace_context.sampling_decision = tarpc::trace::SamplingDecision::{'Sampled' if m.idx % 2 == 1 else 'Unsampled'};")
+        # the deadline is part of the request's context: the default, a short one, one three months away
+        dsecs = [10, 3, 7776000][m.idx % 3]
+        L.append(f"            let dl = std::time::Instant::now() + std::time::Duration::from_secs({dsecs});")
+        L.append("            ctx.deadline = dl;")
         L.append("            let before = log.lock().unwrap().len();")
         L.append("            let nb = names.lock().unwrap().len();")
         L.append("            let wb = wire.lock().unwrap().len();")
@@ -163,6 +168,14 @@ def render(d, svc="Svc"):
         L.append(f"            let want = format!(\"{want}{{}}\", on_wire);")
         L.append("            let l = log.lock().unwrap();")
         L.append(f"            if l.len() != before + 1 || l[before] != want {{ fails.push(format!(\"method {m.name}: implementor saw {{:?}}, expected exactly [{{:?}}]\", &l[before..], want)); }}")
+        L.append(f"            match crate::support::noted_deadline(Arc::as_ptr(&log) as usize, {m.idx}) {{")
+        L.append("                Some(seen) => {")
+        L.append("                    let tol = std::time::Duration::from_secs(2);")
+        L.append(f"                    if seen + tol < dl {{ fails.push(format!(\"method {m.name}: the implementor's context carried a deadline {{:?}} EARLIER than the caller's ({dsecs} s away)\", dl - seen)); }}")
+        L.append(f"                    if seen > dl + tol {{ fails.push(format!(\"method {m.name}: the implementor's context carried a deadline {{:?}} LATER than the caller's ({dsecs} s away)\", seen - dl)); }}")
+        L.append("                }")
+        L.append(f"                None => fails.push(\"method {m.name}: the implementor was not invoked (no deadline noted)\".to_string()),")
+        L.append("            }")
         bare = m.name.replace("r#", "")
         L.append("            let n = names.lock().unwrap();")
         L.append(f"            if n.len() != nb + 1 || !(n[nb] == \"{svc}.{m.name}\" || n[nb] == \"{svc}.{bare}\") {{ fails.push(format!(\"method {m.name}: request name {{:?}}\", &n[nb..])); }}")
@@ -326,6 +339,14 @@ SUPPORT = """pub mod support {
         fn poll_close(mut self: Pin<&mut Self>, cx: &mut Context<'_>) -> Poll<Result<(), Self::Error>> {
             Pin::new(&mut self.inner).poll_close(cx)
         }
+    }
+    /// the deadline the implementor found in its context, per (run, method)
+    static DEADLINES: Mutex<Vec<(usize, u32, std::time::Instant)>> = Mutex::new(Vec::new());
+    pub fn note_deadline(run: usize, method: u32, d: std::time::Instant) {
+        DEADLINES.lock().unwrap().push((run, method, d));
+    }
+    pub fn noted_deadline(run: usize, method: u32) -> Option<std::time::Instant> {
+        DEADLINES.lock().unwrap().iter().rev().find(|x| x.0 == run && x.1 == method).map(|x| x.2)
     }
     /// second regime: an OpenTelemetry layer is the (global) subscriber, so the tracer chooses the
     /// trace ids and tarpc moves contexts through spans
